@@ -1774,7 +1774,11 @@ def _cpu_busy_time(times):
 
 
 def _cpu_times_deltas(t1, t2):
-    assert t1._fields == t2._fields, (t1, t2)
+    if t1._fields != t2._fields:
+        # The previous sample was read from a /proc/stat with another
+        # number of fields (PROCFS_PATH changed in between): the two
+        # are not comparable, same as having no previous sample.
+        t1 = t2
     field_deltas = []
     for field in _psplatform.scputimes._fields:
         field_delta = getattr(t2, field) - getattr(t1, field)
